@@ -222,7 +222,7 @@ func runC14(h *H) {
 		c.rc.cmd("SELECT C")
 		setup.rc.cmd("SELECT A")
 		var hdr strings.Builder
-		for i := 0; i < 2500; i++ {
+		for i := 0; i < 300; i++ {
 			fmt.Fprintf(&hdr, "X-Filler-%d: %s\r\n", i, strings.Repeat("v", 60))
 		}
 		rounds := h.Pick(60, 300)
@@ -241,6 +241,9 @@ func runC14(h *H) {
 				h.Fail("setup", "COPY: "+tagged, desc)
 				break
 			}
+			// both sessions learn about the new message first, so that "*" is the new message
+			a.rc.cmd("NOOP")
+			c.rc.cmd("NOOP")
 			var wg sync.WaitGroup
 			stalledAt := ""
 			var smu sync.Mutex
